@@ -1,5 +1,5 @@
 (* C15: evaluation of the model on recorded cases (correspondence check). *)
-From CJ Require Import Common.Base C15.Model C15.ModelName.
+From CJ Require Import Common.Base C15.Model C15.ModelName C15.ModelObf.
 
 Definition obs := (bool * bytes * bool * bytes)%type.
 
@@ -85,13 +85,56 @@ Definition model_send_name (e : bytes) (dom : name) : N * name :=
   | Panic => (panic_code, [])
   end.
 
+(* ---- obfuscators ----
+   XOR and Nil are compared exactly (the random bytes are read off the observed
+   encoding: "the observed outcome is one the model allows").  For CTR and GCM
+   the primitives are abstract; the model is instantiated with stand-ins that
+   have the right lengths, and only what does not depend on the primitives is
+   compared: which inputs are accepted, and the length of the result. *)
+Definition zeros (n : N) : bytes := repeat 0 (N.to_nat n).
+Definition st_sbm (a : bytes) : option (bytes * bytes) := Some (zeros 32, zeros 32).
+Definition st_r2p (r : bytes) : bytes := zeros 32.
+Definition st_x25519 (a p : bytes) : option bytes := Some (zeros 32).
+Definition st_sha (b : bytes) : bytes := zeros 32.
+Definition st_ctr (k iv m : bytes) : bytes := m.
+Definition st_seal (k n m : bytes) : bytes := m ++ zeros 16.
+Definition st_open (k n c : bytes) : option bytes := if blen c <? 16 then None else Some (take (blen c - 16) c).
+Definition st_rand : obf_rand := {| or_cands := [zeros 32]; or_byte := 0 |}.
+
+Definition opt_len (o : option bytes) : bool * N := match o with Some b => (true, blen b) | None => (false, 0) end.
+Definition opt_eqb (o : option bytes) (ok : bool) (b : bytes) : bool :=
+  match o with Some x => ok && bytes_eqb x b | None => negb ok end.
+
+(* variants: 0 xor, 1 nil, 2 ctr, 3 gcm *)
+Definition chk_obf (v : N) (t : bytes) (publen : N) (ok : bool) (c1 : bytes) (ok2 : bool) (rev : bytes) : bool :=
+  match v with
+  | 0 => opt_eqb (xor_obfuscate (take (blen t) c1) t) ok c1 && opt_eqb (xor_reveal c1) ok2 rev
+  | 1 => opt_eqb (nil_obfuscate t) ok c1 && opt_eqb (nil_reveal c1) ok2 rev
+  | 2 => let '(mok, mlen) := opt_len (ctr_obfuscate st_sbm st_x25519 st_sha st_ctr st_rand t (zeros publen)) in
+         Bool.eqb ok mok && (negb ok || ((blen c1 =? mlen) && ok2))
+  | _ => let '(mok, mlen) := opt_len (gcm_obfuscate st_sbm st_x25519 st_sha st_seal st_rand t (zeros publen)) in
+         Bool.eqb ok mok && (negb ok || ((blen c1 =? mlen) && ok2))
+  end.
+
+Definition chk_reveal (v : N) (c : bytes) (ok : bool) (out : bytes) : bool :=
+  match v with
+  | 0 => opt_eqb (xor_reveal c) ok out
+  | 1 => opt_eqb (nil_reveal c) ok out
+  | 2 => let '(mok, mlen) := opt_len (ctr_reveal st_r2p st_x25519 st_sha st_ctr c (zeros 32)) in
+         Bool.eqb ok mok && (negb ok || (blen out =? mlen))
+  | _ => let '(mok, _) := opt_len (gcm_reveal st_r2p st_x25519 st_sha st_open c (zeros 32)) in
+         mok || negb ok       (* the model rejects (too short) -> the code rejects; authentication failures are the primitive's *)
+  end.
+
 Inductive vcase :=
 | CFmt (op : N) (d : bspec) (o : obs_spec)
 | CNameRt (n : name) (o : name_rt_obs)
 | CReadName (d : bytes) (pos : N) (o : read_name_obs)
 | CTrim (n s : name) (ok : bool) (pre : name)
 | CChunks (d : bspec) (n : N) (out : list bytes)
-| CSendName (e : bytes) (dom : name) (code : N) (qname : name).
+| CSendName (e : bytes) (dom : name) (code : N) (qname : name)
+| CObf (v : N) (t : bytes) (publen : N) (ok : bool) (c1 : bytes) (ok2 : bool) (rev : bytes)
+| CReveal (v : N) (c : bytes) (ok : bool) (out : bytes).
 
 Definition chk (c : vcase) : bool :=
   match c with
@@ -101,4 +144,6 @@ Definition chk (c : vcase) : bool :=
   | CTrim n s ok pre => let '(ok', pre') := model_trim n s in Bool.eqb ok ok' && name_eqb pre pre'
   | CChunks d n out => name_eqb (chunks n (bspec_val d)) out
   | CSendName e dom code qn => let '(c', n') := model_send_name e dom in (code =? c') && name_eqb qn n'
+  | CObf v t pl ok c1 ok2 rev => chk_obf v t pl ok c1 ok2 rev
+  | CReveal v c ok out => chk_reveal v c ok out
   end.
